@@ -91,6 +91,36 @@ func NewRelay() (*Relay, error) {
 	return r, nil
 }
 
+// ClosePort really closes the relay's UDP port (a datagram sent to it is answered
+// with ICMP port unreachable); ReopenPort binds the same port number again.
+func (r *Relay) ClosePort() {
+	r.mu.Lock()
+	c := r.in
+	r.mu.Unlock()
+	c.Close()
+}
+
+func (r *Relay) ReopenPort() error {
+	var c *net.UDPConn
+	var err error
+	for try := 0; try < 50; try++ {
+		if c, err = net.ListenUDP("udp", &net.UDPAddr{IP: net.ParseIP("127.0.0.1"), Port: int(r.Port)}); err == nil {
+			break
+		}
+		time.Sleep(2 * time.Millisecond)
+	}
+	if err != nil {
+		return err
+	}
+	c.SetReadBuffer(1 << 20)
+	r.mu.Lock()
+	r.in = c
+	r.mu.Unlock()
+	r.wg.Add(1)
+	go r.read(c, false)
+	return nil
+}
+
 func (r *Relay) read(c *net.UDPConn, hole bool) {
 	defer r.wg.Done()
 	buf := make([]byte, 2048)
@@ -259,7 +289,10 @@ func (r *Relay) Barrier() error {
 }
 
 func (r *Relay) Close() {
-	r.in.Close()
+	r.mu.Lock()
+	in := r.in
+	r.mu.Unlock()
+	in.Close()
 	r.hole.Close()
 	r.wg.Wait()
 	r.mu.Lock()
